@@ -49,7 +49,7 @@ fn classify_doc(der: &[u8]) -> &'static str {
 	}
 }
 
-fn make_docs(rsa_fixture: &[u8], thorough: bool) -> Vec<Doc> {
+pub fn make_docs(rsa_fixture: &[u8], thorough: bool) -> Vec<Doc> {
 	let mut docs = Vec::new();
 	// OpenSSL
 	let ed = PKey::generate_ed25519().unwrap();
@@ -183,7 +183,10 @@ fn check_loaded(s: &mut Suite, what: &str, doc: &Doc, k: &KeyPair) {
 				}
 				format!("(ok {})", alg_name(sp.algorithm()))
 			},
-			Err(e) => format!("(err {})", err_name(&e)),
+			Err(e) => {
+				s.rep.violate(&format!("C11:spki-parses-back:{}", doc.kty), "SubjectPublicKeyInfo::from_der refuses the SubjectPublicKeyInfo rcgen itself exported", format!("{} error={:?} spki={}", what, e, hex(&spki)));
+				format!("(err {})", err_name(&e))
+			},
 		};
 		// model: lookup by the AlgorithmIdentifier bytes
 		let (t, _) = crate::der::read_tlv(&spki).unwrap();
@@ -413,6 +416,65 @@ pub fn run(ctx: &mut Ctx) -> Report {
 				}
 			}
 		}
+	}
+	// lookup by OID: an algorithm has one identifier.  Every registered signature OID, every
+	// proper prefix and one-component extension of the ones rcgen knows, their neighbours and the
+	// empty OID: `from_oid` answers with an algorithm only for that algorithm's own identifier
+	{
+		let own: Vec<(&'static str, Vec<u64>)> = vec![
+			("rsaSha256", vec![1, 2, 840, 113549, 1, 1, 11]), ("rsaSha384", vec![1, 2, 840, 113549, 1, 1, 12]),
+			("rsaSha512", vec![1, 2, 840, 113549, 1, 1, 13]), ("ecdsaP256", vec![1, 2, 840, 10045, 4, 3, 2]),
+			("ecdsaP384", vec![1, 2, 840, 10045, 4, 3, 3]), ("ecdsaP521", vec![1, 2, 840, 10045, 4, 3, 4]),
+			("ed25519", vec![1, 3, 101, 112]),
+		];
+		let mut queries: Vec<Vec<u64>> = vec![vec![]];
+		for (_, o) in keys::registered_signature_oids() {
+			queries.push(o);
+		}
+		for (_, o) in &own {
+			for k in 1..o.len() {
+				queries.push(o[..k].to_vec());
+			}
+			for extra in [0u64, 1, 2] {
+				let mut e = o.clone();
+				e.push(extra);
+				queries.push(e);
+			}
+			for d in [-1i64, 1] {
+				let mut e = o.clone();
+				let l = e.len() - 1;
+				e[l] = (e[l] as i64 + d) as u64;
+				queries.push(e);
+			}
+			let mut e = o.clone();
+			e.reverse();
+			queries.push(e);
+		}
+		queries.sort();
+		queries.dedup();
+		for q in &queries {
+			let real = match std::panic::catch_unwind(|| SignatureAlgorithm::from_oid(q)) {
+				Ok(Ok(a)) => format!("(ok {})", alg_name(a)),
+				Ok(Err(e)) => format!("(err {})", err_name(&e)),
+				Err(_) => "panic".into(),
+			};
+			let line = format!("alg-from-oid {} {}", backend(), list(&q.iter().map(|x| x.to_string()).collect::<Vec<_>>()));
+			let model = s.drv.ask(&line);
+			s.rep.case(&line, true);
+			if real != model {
+				s.rep.disagree("C11:alg-from-oid", "model and implementation differ on SignatureAlgorithm::from_oid", format!("request: {}\nreal:  {}\nmodel: {}", line, real, model));
+			}
+			if real == "panic" {
+				s.rep.violate("C11:load-panics", "SignatureAlgorithm::from_oid panics", line.clone());
+			}
+			if let Some(name) = real.strip_prefix("(ok ").map(|x| x.trim_end_matches(')')) {
+				let is_own = own.iter().any(|(n, o)| *n == name && o == q);
+				if !is_own {
+					s.rep.violate("C11:lookup-by-oid-consistent", "SignatureAlgorithm::from_oid returns an algorithm for an identifier that is not that algorithm's own", format!("{} -> {}", line, real));
+				}
+			}
+		}
+		s.rep.exhaustive.push(format!("SignatureAlgorithm::from_oid on {} identifiers: every registered PKIX signature OID, every proper prefix, one-component extension, last-component neighbour and reversal of the OIDs rcgen knows, and the empty OID", queries.len()));
 	}
 	s.rep.exhaustive.push("every key document x every loading entry point x every public algorithm constant of the build; all pairs of algorithm constants for ==/hash".into());
 	let req = s.drv.requests;
